@@ -136,8 +136,11 @@ fn check_store(d: &Digest, s: StoreIx) -> (Vec<Finding>, Vec<RunInfo>, St) {
     let mut infos = Vec::new();
     let mut seen: HashSet<ActId> = HashSet::new();
     let mut red_count: HashMap<(ActId, CompId), u32> = HashMap::new();
-    for run in &sd.runs {
+    for (run_ix, run) in sd.runs.iter().enumerate() {
         let a = run.act;
+        // the reducer had certainly left this action's notify phase when the next action's first
+        // callback ran (or at the end of the log)
+        let left_by = sd.runs.get(run_ix + 1).map(|n| n.first).unwrap_or(d.h.recs.len());
         if !seen.insert(a) {
             cx.f(Kind::Phase, Some(a), run.first, None, format!("callbacks of action {} are not contiguous: another action's callbacks ran in between", a));
         }
@@ -306,7 +309,7 @@ fn check_store(d: &Digest, s: StoreIx) -> (Vec<Finding>, Vec<RunInfo>, St) {
                 if !matches!(d.sub_kind(*sub), SubKind::Direct | SubKind::Selector { .. }) {
                     continue;
                 }
-                let required = iv.add_ret.map(|r| r < lb).unwrap_or(false) && iv.unsub_inv.map(|u| u > run.last).unwrap_or(true);
+                let required = iv.add_ret.map(|r| r < lb).unwrap_or(false) && iv.unsub_inv.map(|u| u > left_by).unwrap_or(true);
                 if required && !notified.iter().any(|(x, _)| x == sub) {
                     cx.f(Kind::Notify, Some(a), run.last, Some(*sub), format!("subscriber {} was registered before action {} was dispatched but was not notified of it", sub, a));
                 }
